@@ -448,7 +448,12 @@ where
             // RST_STREAM. Remotely initiated resets have already been applied
             // by the streams state machine and must not be echoed back.
             Err(Error::Reset(id, reason, initiator)) => {
-                if initiator == Initiator::Remote {
+                // A reset stored in the stream state (the peer's, or the
+                // application's own `send_reset`) can resurface here when a
+                // late frame for that stream is rejected, e.g. a PUSH_PROMISE
+                // on a stream the application has reset. It has been applied
+                // already; only library-generated resets are still to be sent.
+                if initiator != Initiator::Library {
                     tracing::trace!(?id, ?reason, ?initiator, "stream reset");
                     return Ok(());
                 }
